@@ -5,7 +5,7 @@ normal return is allowed exactly when none of the conditions holds."""
 import z3
 from .common import *  # noqa
 from pyvc.pandas_model import DF, SER, dtype_is_object, dtype_is_string, dtype_is_numeric, nunique, \
-    count_true, LB
+    count_true, LB, col_index
 from pyvc import natives as N
 
 Q = 'py_stringsimjoin.utils.validation.'
@@ -73,13 +73,12 @@ def key_ok(table, key_attr):
     """key column values pairwise distinct and none missing (over the rows of `table`)"""
     rows, cols = rec_field(table, 'rows'), rec_field(table, 'cols')
     n = ln(rows)
-    i, j, p = ints('i j p')
-    cell = lambda r, q: L_get(LV, L_get(ROWS, rows.t, r), q)
-    return z3.Exists([p], z3.And(
-        p >= 0, p < ln(cols), at(cols, p) == key_attr,
-        FA([j], z3.Implies(z3.And(j >= 0, j < p), at(cols, j) != key_attr)),
-        FA([i, j], z3.Implies(z3.And(i >= 0, i < j, j < n), cell(i, p) != cell(j, p))),
-        FA([i], z3.Implies(z3.And(i >= 0, i < n), z3.Not(N.val_isnull(cell(i, p)))))))
+    i, j = ints('i j')
+    p = col_index(cols.t, key_attr)
+    cell = lambda r: L_get(LV, L_get(ROWS, rows.t, r), p)
+    return z3.And(
+        FA([i, j], z3.Implies(z3.And(i >= 0, i < j, j < n), cell(i) != cell(j))),
+        FA([i], z3.Implies(z3.And(i >= 0, i < n), z3.Not(N.val_isnull(cell(i))))))
 
 
 class KeyAttr(_Ret):
